@@ -2103,6 +2103,12 @@ struct ConcOutcome {
     verdict: Verdict,
     /// directed plans: the intended rounds were formed
     conclusive: bool,
+    /// the observed merge: batches (thread, index) in file order, the records they were coalesced
+    /// into, and per batch the end offset / 1-based number of its record
+    order: Vec<(usize, usize)>,
+    groups: Vec<Group>,
+    end_of: std::collections::BTreeMap<(usize, usize), usize>,
+    frame_of: std::collections::BTreeMap<(usize, usize), usize>,
 }
 
 fn conc_analyse(rec: &mut Recorder, plan: &ConcPlan, path: &str, run: &ConcRun, trace: Option<&str>) -> ConcOutcome {
@@ -2401,7 +2407,7 @@ fn conc_analyse(rec: &mut Recorder, plan: &ConcPlan, path: &str, run: &ConcRun, 
     let obs = format!("{} read={}:{:016x}:{}{}", summary(&bytes), delivered.len(), hash, if fails.iter().any(|f| f.starts_with("final-read")) { "err" } else { "end" }, sync_obs);
     fails.truncate(4);
     let verdict = if fails.is_empty() { Verdict::Ok } else { Verdict::Fail { class: "concurrent".into(), detail: format!("[{}] {}", plan.desc, fails.join(" | ")) } };
-    ConcOutcome { req, obs, verdict, conclusive }
+    ConcOutcome { req, obs, verdict, conclusive, order, groups, end_of, frame_of }
 }
 
 /// plan number `i` of a run: free-running plans first, then the directed ones
@@ -2611,6 +2617,297 @@ fn run_concurrent_faults(args: &Args, rec: &mut Recorder, dir: &str) {
     }
 }
 
+// ---------------------------------------------------------------------------------------------
+// stream 9: the composed model `Blue.ConcLog` replayed AS A WHOLE on real multi-threaded runs
+// (after the older streams: their case numbers stay what they were).  A run of N appender threads
+// (no `fsync()` callers: they are not in the model), fault free or with a failing fdatasync, free
+// running or one of the three directed failure schedules.  From what is observed — the final file
+// (which callers were coalesced into which record, in which order), the sync42 event log (rounds of
+// the fsync queue in the order they ran, members in hand-out order), the probe (file length when
+// each fdatasync was issued, its result), every caller's answer — an event list of the model is
+// built:
+//   L<batch>   `link buf`   callers in write-queue link order = order of the buffers in the file
+//   W<n>       `write n`    one per record
+//   F<i>       `flink i`    members of a round, before its `fenter`
+//   E<n> R<ok> `fenter n` / `fret ok`   per round (R only when a call was made)
+// The interleaving of W with E is fixed by the probe: a call issued at file length L sees exactly
+// the records that end at or before L (a record whose write was in progress when the length was
+// read is not yet in the model's file; counter conclog.fdatasync_issued_mid_record).  The order of
+// the F events inside a round is the hand-out order; the model's observations do not depend on it
+// (the driver runs the reversed order too and compares: `ord=1`).
+fn conclog_counts(thorough: bool) -> u64 {
+    if thorough { 96 } else { 24 }
+}
+
+fn conclog_plan(seed: u64, i: u64, thorough: bool) -> ConcPlan {
+    let mut plan = match i % 4 {
+        3 => return directed_fault_plan(seed, 1000 + i, 3 + ((i / 4) % 3) as u8),
+        // an index that is never `heavy` in `conc_plan`
+        _ => conc_plan(seed, 200_000 + i * 10, thorough),
+    };
+    // no fsync() callers; values capped (the model is run several times per case)
+    for bs in plan.threads.iter_mut() {
+        for b in bs.iter_mut() {
+            for e in b.iter_mut() {
+                if let Bs::Gen(s, n) = e.val {
+                    e.val = Bs::Gen(s, n.min(3000));
+                }
+            }
+        }
+    }
+    plan.fsync_before = plan.threads.iter().map(|b| vec![false; b.len()]).collect();
+    plan.fsync_only = vec![];
+    plan.events = true;
+    plan.desc = format!("conclog threads={} per={}", plan.threads.len(), plan.threads[0].len());
+    if i % 4 == 2 {
+        let mut rng = Rng::for_case(seed, 10, i);
+        let appends: u64 = plan.threads.iter().map(|b| b.len() as u64).sum();
+        let (from, to, kind) = match (i / 4) % 3 {
+            0 => { let k = 1 + rng.below(3); (k, k + 1, "kth") }
+            1 => { let k = 1 + rng.below(4); (k, u64::MAX, "from-kth-on") }
+            _ => { let k = 2 + rng.below((appends / 3).max(1)); (k, k + 2, "middle-two") }
+        };
+        let real = rng.chance(1, 3);
+        plan.fault = Some(Fault { from, to, real, kind });
+        plan.desc = format!("{} fault={}:{}{}", plan.desc, kind, from, if real { ":syscall-made" } else { "" });
+    }
+    plan
+}
+
+const CONCLOG_LIM: usize = 1 << 20;
+
+/// request, observation and model-independent verdict of one run
+fn conclog_case(rec: &mut Recorder, plan: &ConcPlan, bytes: &[u8], run: &ConcRun, out: &ConcOutcome) -> (String, String, Verdict) {
+    use std::collections::BTreeMap;
+    let mut fails: Vec<(String, String)> = vec![];
+    let total: usize = plan.threads.iter().map(|b| b.len()).sum();
+    // callers = buffers in file order
+    let cidx: BTreeMap<(usize, usize), usize> = out.order.iter().enumerate().map(|(c, k)| (*k, c)).collect();
+    if out.order.len() != total || cidx.len() != total {
+        fails.push(("caller-not-in-file-once".into(), format!("{} of {} buffers are in the file", cidx.len(), total)));
+    }
+    // records, straight from the bytes: the file is the concatenation of the records (the walker
+    // accounts for every byte: frames and zero padding before a block boundary), and the buffers
+    // in file order fill them exactly: no buffer straddles a record boundary
+    let mut rec_size: Vec<usize> = vec![];
+    let mut rec_end: Vec<usize> = vec![];
+    match walk(bytes).and_then(|(fr, _)| logical(&fr)) {
+        Ok(lf) => {
+            for (sz, e) in lf {
+                rec_size.push(sz);
+                rec_end.push(e);
+            }
+        }
+        Err(m) => fails.push(("file-not-concatenation-of-records".into(), m)),
+    }
+    // per caller: (record, offset inside the record's payload)
+    let mut place: Vec<(usize, usize)> = vec![];
+    let mut n_of: Vec<usize> = vec![0; rec_size.len()];
+    {
+        let (mut k, mut off) = (0usize, 0usize);
+        for (t, b) in &out.order {
+            let sz = batch_size(&plan.threads[*t][*b]);
+            while k < rec_size.len() && off == rec_size[k] {
+                k += 1;
+                off = 0;
+            }
+            if k >= rec_size.len() {
+                fails.push(("file-not-concatenation-of-records".into(), format!("buffer {}/{} lies behind the last record", t, b)));
+                break;
+            }
+            if off + sz > rec_size[k] {
+                fails.push(("caller-split-across-records".into(), format!("buffer {}/{} ({} bytes) starts at offset {} of record {} which holds {} bytes", t, b, sz, off, k, rec_size[k])));
+                break;
+            }
+            place.push((k, off));
+            n_of[k] += 1;
+            off += sz;
+        }
+        if fails.is_empty() && !(k + 1 == rec_size.len() && off == rec_size[k] || rec_size.is_empty() && out.order.is_empty()) {
+            fails.push(("file-not-concatenation-of-records".into(), format!("the buffers end at offset {} of record {} of {}", off, k, rec_size.len())));
+        }
+    }
+    // every caller is answered exactly once
+    let mut ans: Vec<Vec<String>> = vec![vec![]; out.order.len()];
+    for r in &run.rets {
+        match cidx.get(&(r.t, r.i)) {
+            Some(c) => ans[*c].push(match r.res.as_str() { "ok" => "ok".into(), "corruption-fsync-failed" => "err".into(), x => x.to_string() }),
+            None => fails.push(("caller-not-answered-once".into(), format!("answer {} for {}/{} whose buffer is not in the file", r.res, r.t, r.i))),
+        }
+    }
+    for (c, a) in ans.iter().enumerate() {
+        if a.len() != 1 {
+            fails.push(("caller-not-answered-once".into(), format!("caller {} ({:?}) was answered {} times", c, out.order[c], a.len())));
+        }
+    }
+    // an Ok caller's record lies inside the prefix that was in the file when some SUCCESSFUL
+    // fdatasync was issued, and that call had returned when the append returned
+    for r in run.rets.iter().filter(|r| r.res == "ok") {
+        let e = match cidx.get(&(r.t, r.i)).and_then(|c| place.get(*c)).and_then(|p| rec_end.get(p.0)) {
+            Some(e) => *e as u64,
+            None => continue,
+        };
+        if !run.calls.iter().any(|c| c.ok && c.len >= e && c.ret_tick < r.end_tick) {
+            let best = run.calls.iter().filter(|c| c.ok && c.ret_tick < r.end_tick).map(|c| c.len).max();
+            fails.push(("ack-not-covered-by-successful-sync".into(), format!("append {}/{} returned Ok, its record ends at {}, the longest prefix covered by a successful fdatasync that had returned is {:?}", r.t, r.i, e, best)));
+        }
+    }
+    // the rounds of the fsync queue
+    let rounds = match fsync_rounds(&run.events) {
+        Ok(r) => r,
+        Err(m) => {
+            fails.push(("event-log".into(), m));
+            vec![]
+        }
+    };
+    let mut in_round = vec![0usize; out.order.len()];
+    for r in &rounds {
+        for m in &r.members {
+            match (m.2, cidx.get(&(m.0, m.1))) {
+                (0, Some(c)) => in_round[*c] += 1,
+                _ => fails.push(("event-log".into(), format!("member {:?} of a round is not an append of the plan", m))),
+            }
+        }
+    }
+    // the reconstruction itself failed (as opposed to: the run violates the property)
+    let broken = |fails: &Vec<(String, String)>| fails.iter().any(|f| matches!(f.0.as_str(), "caller-not-in-file-once" | "file-not-concatenation-of-records" | "caller-split-across-records" | "event-log"));
+    if !broken(&fails) && in_round.iter().any(|n| *n != 1) {
+        fails.push(("caller-not-answered-once".into(), format!("rounds of the fsync queue per caller: {:?}", in_round)));
+    }
+    if rounds.iter().filter(|r| r.call.is_some()).count() != run.calls.len() && plan.directed == 0 {
+        fails.push(("event-log".into(), format!("{} rounds made a call, the probe saw {}", rounds.iter().filter(|r| r.call.is_some()).count(), run.calls.len())));
+    }
+    // the event list
+    let mut evs: Vec<String> = vec![];
+    let mut written_recs = 0usize; // records written so far
+    let mut next_caller = 0usize;
+    let mut synced_list: Vec<String> = vec![];
+    let mut synced = 0usize;
+    let mut core = 0usize;
+    let mut cum_payload: Vec<usize> = vec![];
+    {
+        let mut a = 0;
+        for s in &rec_size {
+            a += s;
+            cum_payload.push(a);
+        }
+    }
+    let emit_write = |evs: &mut Vec<String>, written_recs: &mut usize, next_caller: &mut usize| {
+        let n = n_of[*written_recs];
+        for c in *next_caller..*next_caller + n {
+            let (t, b) = out.order[c];
+            evs.push(format!("L{}", plan.threads[t][b].iter().map(|e| e.tok()).collect::<Vec<_>>().join("+")));
+        }
+        evs.push(format!("W{}", n));
+        *next_caller += n;
+        *written_recs += 1;
+    };
+    if !broken(&fails) {
+        for r in &rounds {
+            let members: Vec<usize> = r.members.iter().map(|m| cidx[&(m.0, m.1)]).collect();
+            let need = members.iter().map(|c| place[*c].0 + 1).max().unwrap_or(0);
+            let len = r.call.map(|c| c.1 as usize);
+            while written_recs < rec_end.len() && (written_recs < need || len.map_or(false, |l| rec_end[written_recs] <= l)) {
+                emit_write(&mut evs, &mut written_recs, &mut next_caller);
+            }
+            for c in &members {
+                evs.push(format!("F{}", c));
+            }
+            evs.push(format!("E{}", members.len()));
+            rec.count(&format!("conclog.rounds.{}", match r.call { None => "no_call_already_synced", Some((_, _, true)) => "call_ok", _ => "call_failed" }));
+            if members.len() > 1 {
+                rec.count("conclog.rounds.with_2plus_members");
+            }
+            if let Some((_, l, ok)) = r.call {
+                evs.push(format!("R{}", ok as u8));
+                let floor = rec_end.iter().take(written_recs).last().copied().unwrap_or(0);
+                if floor != l as usize {
+                    rec.count("conclog.fdatasync_issued_mid_record");
+                }
+                if written_recs < rec_end.len() {
+                    rec.count("conclog.fdatasync_issued_before_the_last_write");
+                }
+                if ok {
+                    synced = synced.max(floor);
+                    core = members.iter().map(|c| cum_payload[place[*c].0]).max().unwrap_or(core);
+                }
+                synced_list.push(synced.to_string());
+            }
+        }
+        while written_recs < rec_end.len() {
+            emit_write(&mut evs, &mut written_recs, &mut next_caller);
+        }
+    }
+    rec.add("conclog.callers", out.order.len() as u64);
+    rec.add("conclog.records", rec_size.len() as u64);
+    rec.add("conclog.records_merging_2plus", n_of.iter().filter(|n| **n > 1).count() as u64);
+    rec.add("conclog.events", evs.len() as u64);
+    rec.add("conclog.answers_err", ans.iter().filter(|a| a.iter().any(|x| x == "err")).count() as u64);
+    let req = format!("conclog lim={} :: {}", CONCLOG_LIM, evs.join(" "));
+    let dash = |v: Vec<String>| if v.is_empty() { "-".to_string() } else { v.join(",") };
+    let obs = format!("len={} fnv={:016x} ans={} wr={} written={} synced={} core={} seq=1 dur=1 ord=1",
+        bytes.len(), fnv(bytes),
+        dash(ans.iter().map(|a| if a.len() == 1 { a[0].clone() } else if a.is_empty() { "-".into() } else { "multi".into() }).collect()),
+        dash(place.iter().map(|p| format!("{}.{}", p.0, p.1)).collect()),
+        rec_size.iter().sum::<usize>(), dash(synced_list), core);
+    let verdict = match (fails.first(), &out.verdict) {
+        (Some((class, _)), _) => Verdict::Fail { class: class.clone(), detail: format!("[{}] {}", plan.desc, fails.iter().take(4).map(|f| format!("{}: {}", f.0, f.1)).collect::<Vec<_>>().join(" | ")) },
+        (None, Verdict::Fail { class, detail }) => Verdict::Fail { class: class.clone(), detail: detail.clone() },
+        (None, _) => Verdict::Ok,
+    };
+    (req, obs, verdict)
+}
+
+fn run_conclog(args: &Args, rec: &mut Recorder, dir: &str) {
+    for i in 0..conclog_counts(args.thorough) {
+        if !rec.wants() {
+            rec.skip();
+            continue;
+        }
+        let plan = conclog_plan(args.seed, i, args.thorough);
+        let path = format!("{}/conclog-{}.log", dir, i);
+        let nt = Some(fnv(format!("conclog {} {} {}", i, plan.desc, plan.threads.iter().flatten().map(|b| groups_tok(&[vec![b.clone()]])).collect::<Vec<_>>().join(" ")).as_bytes()));
+        rec.count("conclog.runs");
+        rec.count(if plan.directed != 0 { "conclog.runs.directed_failure_schedule" } else if plan.fault.is_some() { "conclog.runs.free_running_with_failing_fdatasync" } else { "conclog.runs.free_running_fault_free" });
+        let mut attempt = 0;
+        loop {
+            attempt += 1;
+            let saved = rec.counters.clone();
+            let res = match conc_execute(&plan, &path, None) {
+                Ok(run) => {
+                    // the older analysis (its counters belong to streams 6 and 8: dropped here)
+                    let out = conc_analyse(rec, &plan, &path, &run, None);
+                    rec.counters = saved.clone();
+                    let bytes = std::fs::read(&path).unwrap_or_default();
+                    let r = conclog_case(rec, &plan, &bytes, &run, &out);
+                    Ok((r, out.conclusive, run.calls.iter().any(|c| !c.ok)))
+                }
+                Err(m) => Err(m),
+            };
+            let _ = std::fs::remove_file(&path);
+            let retry = plan.directed != 0 && attempt < 4 && matches!(&res, Ok((r, c, _)) if !*c && matches!(r.2, Verdict::Ok));
+            if retry {
+                rec.counters = saved;
+                rec.count("conclog.directed.attempts_repeated");
+                continue;
+            }
+            match res {
+                Ok(((req, obs, v), conclusive, any_failed)) => {
+                    if plan.directed != 0 {
+                        rec.count(if conclusive { "conclog.directed.schedule_reached" } else { "conclog.directed.schedule_not_reached" });
+                    }
+                    if any_failed {
+                        rec.count("conclog.runs_with_a_failed_fdatasync");
+                    }
+                    rec.case(&req, &obs, v, nt)
+                }
+                Err(m) => rec.case("conclog bad", "panic", Verdict::Fail { class: "concurrent-panic".into(), detail: format!("[{}] {}", plan.desc, m) }, nt),
+            }
+            break;
+        }
+    }
+}
+
 pub fn run(args: &Args) {
     if args.rest.first().map(|s| s.as_str()) == Some("--conc-child") {
         conc_child(args);
@@ -2623,9 +2920,10 @@ pub fn run(args: &Args) {
     run_concurrent(args, &mut rec, &dir);
     run_padding(args, &mut rec);
     run_concurrent_faults(args, &mut rec, &dir);
+    run_conclog(args, &mut rec, &dir);
     let _ = std::fs::remove_dir_all(&dir);
     rec.finish(
-        "eight seeded streams: small batch sequences; >=1 MiB files whose frames end 0..21 bytes before a block boundary / on it / 1..24 and many bytes past it, tiny (8-byte) and maximal (MAX_BATCH_SIZE-1..BLOCK_SIZE) batches; every truncation of small files; every cut within +-64 (thorough +-96) bytes of every frame/header/padding/block boundary near the block boundary of >=1 MiB files; header/length/padding mutations of small files (reader correspondence only); directed padding (a frame ending exactly 1..=19 bytes before a block boundary followed by an append that does not fit, and split appends whose FIRST frame is followed by 9/8/7 zero bytes, in the first block and behind a padded first block: every length of real padding read back through the reader's check that skipped bytes are zero); 2..8 threads through ConcurrentLogBuilder on a real file with fsync() callers interleaved, plus two directed schedules (one or two appends, then an fsync() caller, queued behind an fsync leader held inside fdatasync); durability at return observed by an in-process fdatasync probe in every run and by strace in some; the same with a FAILING fdatasync (stream 8: the probe makes the k-th call of the log, every call from the k-th on, or one in the middle return -1/EIO, with or without making the system call; free-running 2..8 threads, and three directed schedules: two appends of one coalesced write whose first fdatasync fails while the other queues for the next round, a failing round of several appenders behind a held leader, a failed leader followed by a successful round), where Ok needs a successfully returned fdatasync, an error needs a failed one in progress, and the observed rounds of the fsync queue are replayed by the model. Non-trivial = a sequence of >= 2 appends, any boundary/truncation/mutation case, any concurrent run; distinct by request text (concurrent runs: by plan, since the grouping into frames is schedule dependent; counters named conc.sched.* vary between runs of one seed)",
+        "nine seeded streams: small batch sequences; >=1 MiB files whose frames end 0..21 bytes before a block boundary / on it / 1..24 and many bytes past it, tiny (8-byte) and maximal (MAX_BATCH_SIZE-1..BLOCK_SIZE) batches; every truncation of small files; every cut within +-64 (thorough +-96) bytes of every frame/header/padding/block boundary near the block boundary of >=1 MiB files; header/length/padding mutations of small files (reader correspondence only); directed padding (a frame ending exactly 1..=19 bytes before a block boundary followed by an append that does not fit, and split appends whose FIRST frame is followed by 9/8/7 zero bytes, in the first block and behind a padded first block: every length of real padding read back through the reader's check that skipped bytes are zero); 2..8 threads through ConcurrentLogBuilder on a real file with fsync() callers interleaved, plus two directed schedules (one or two appends, then an fsync() caller, queued behind an fsync leader held inside fdatasync); durability at return observed by an in-process fdatasync probe in every run and by strace in some; the same with a FAILING fdatasync (stream 8: the probe makes the k-th call of the log, every call from the k-th on, or one in the middle return -1/EIO, with or without making the system call; free-running 2..8 threads, and three directed schedules: two appends of one coalesced write whose first fdatasync fails while the other queues for the next round, a failing round of several appenders behind a held leader, a failed leader followed by a successful round), where Ok needs a successfully returned fdatasync, an error needs a failed one in progress, and the observed rounds of the fsync queue are replayed by the model; the composed model Blue.ConcLog replayed as a whole (stream 9: appender threads only, fault free / failing fdatasync / the three directed failure schedules; the observed merge, the rounds of the fsync queue and the file length at every fdatasync become an event list link/write/flink/fenter/fret, and file, per-caller answer and place, written, synced length after every call are compared). Non-trivial = a sequence of >= 2 appends, any boundary/truncation/mutation case, any concurrent run; distinct by request text (concurrent runs: by plan, since the grouping into frames is schedule dependent; counters named conc.sched.* vary between runs of one seed)",
         &[],
     );
 }
